@@ -296,16 +296,53 @@ def run(ck, prog, ctx):
             ck.ob("TABLE", "sf/range", False, "sf sums over a half-open range: the term i = max is lost", where=sf.where(agg[0].line))
         else:
             ck.undecided("TABLE", "sf/range", "tail range not recognised", where=sf.where())
+        # every term of the range is summed: no truncating adaptor between the range and the reduction
+        TRUNC = {"take_while", "skip_while", "filter", "take", "skip", "step_by", "filter_map", "find", "find_map", "map_while", "nth", "last", "peekable"}
+        reds = [(bi, t) for bi, t in sf.calls() if t.callee.trait == "std::iter::Iterator" and t.callee.method in ("fold", "sum", "reduce", "try_fold")]
+        for bi, t in reds:
+            chain = []
+            cur = t.args[0]
+            seen_l = set()
+            while cur is not None and cur.place is not None and cur.place.local not in seen_l:
+                seen_l.add(cur.place.local)
+                ds = pvn.defs(sf).get(cur.place.local, [])
+                nxt = None
+                for kind, pos, d in ds:
+                    if kind == "call":
+                        chain.append(d.callee.method)
+                        nxt = d.args[0] if d.args else None
+                    elif d.rv["k"] == "use":
+                        nxt = d.rv["op"]
+                    elif d.rv["k"] == "ref":
+                        from facts import Operand
+                        nxt = None
+                        for kk, pp, dd in pvn.defs(sf).get(d.rv["place"].local, []):
+                            if kk == "call":
+                                chain.append(dd.callee.method)
+                                nxt = dd.args[0] if dd.args else None
+                cur = nxt
+            bad = [m for m in chain if m in TRUNC]
+            ck.ob("TABLE", "sf/all-terms", not bad, "the tail sum reduces %s" % ("every element of the range (adaptors: %s)" % (chain or ["none"]) if not bad else "a TRUNCATED range (%s): terms of the tail are dropped" % ", ".join(bad)), where=sf.where(t.line))
+
+        def item_param(cb):
+            """index of the closure parameter that receives the range element"""
+            for pb, ubi, ut, uai in pv.closure_use(cb):
+                if ut.callee.method in ("fold", "try_fold"):
+                    return 3
+                return 2
+            return 2
+
         # ln_binomial calls by field
         lb = []
         for fb in fam:
+            ip = item_param(fb) if fb.kind == "Closure" else None
             for bi, t in fb.calls():
                 if (t.callee.res or "").endswith("statrs::ln_binomial"):
                     pv_nb = Prov(prog, bind_closures=False)
                     a0 = pv_nb.of_operand(fb, t.args[0])
                     a1 = pv_nb.of_operand(fb, t.args[1])
-                    it0 = any(a[0] == "param" and a[2] == 3 for a in Prov(prog, bind_closures=False).of_operand(fb, t.args[0])) if fb.kind == "Closure" else False
-                    it1 = any(a[0] == "param" and a[2] == 3 for a in Prov(prog, bind_closures=False).of_operand(fb, t.args[1])) if fb.kind == "Closure" else False
+                    it0 = any(a[0] == "param" and a[1] == fb.id and a[2] == ip for a in a0) if ip else False
+                    it1 = any(a[0] == "param" and a[1] == fb.id and a[2] == ip for a in a1) if ip else False
                     sub0 = any(a[0] == "op" and a[1].startswith("Sub") for a in pvn.of_operand(fb, t.args[0]))
                     sub1 = any(a[0] == "op" and a[1].startswith("Sub") for a in pvn.of_operand(fb, t.args[1]))
                     lb.append((frozenset(F(a0)), it0, sub0, frozenset(F(a1)), it1, sub1, fb, t))
